@@ -410,7 +410,8 @@ static void checkRounds(World& w, int i, const Op& op, const Obs& before, const 
 				for (int o = sh.st[size_t(e.state)].parent; o >= 0 && tag.empty(); o = sh.st[size_t(o)].parent) {
 					if (!sh.isOrtho(o)) continue;
 					bool whole = false, branch = false;
-					for (auto& q : st.approved) { if (q.kind == K_SCHEDULE) continue; if (q.dest == o || (q.dest >= 0 && q.dest < o)) whole = true; else if (q.dest > o && sh.inSubtree(q.dest, o)) branch = true; }
+					std::vector<Tr> all = st.approved; all.insert(all.end(), st.phantom.begin(), st.phantom.end());
+					for (auto& q : all) { if (q.kind == K_SCHEDULE) continue; if (q.dest == o || (q.dest >= 0 && q.dest < o && sh.inSubtree(o, q.dest))) whole = true; else if (q.dest > o && sh.inSubtree(q.dest, o)) branch = true; }
 					if (whole && branch) tag = "ortho_partial_guard_forwarding";
 				}
 				w.violate("C04.guarded_change", b, i, tag); break;
@@ -657,9 +658,12 @@ static void checkConfiguration(World& w, int i, const Op& op, const Obs& before,
 			how == 100 ? "path to destination" : kindName(how), r.req[size_t(g)], double(r.rnd()));
 		w.violate(oracle, b, i, tag); return;
 	}
+	// below a region whose choice this model cannot know (don't-care) nothing is predicted
+	std::vector<uint8_t> unknown(size_t(sh.n), 0);
+	for (int g = 0; g < sh.n; ++g) if (sh.isCompo(g) && r.dontCare[size_t(g)] == 1) for (int x = g; x < g + sh.st[size_t(g)].size; ++x) unknown[size_t(x)] = 1;
 	// P3: regions no request touches keep their sub-state
 	if (w02) for (int g = 0; g < sh.n; ++g) {
-		if (!sh.isCompo(g) || r.req[size_t(g)] >= 0) continue;
+		if (!sh.isCompo(g) || r.req[size_t(g)] >= 0 || unknown[size_t(g)]) continue;
 		if (cb.active[size_t(g)] < 0 || ca.active[size_t(g)] < 0) continue;
 		w.checked("C02.untouched");
 		if (cb.active[size_t(g)] != ca.active[size_t(g)]) {
